@@ -5,8 +5,9 @@ from harness.props import gen_common as G
 
 ID = "C01"
 RULE = ("case = (generator type, construction path, jds, motif sizes, build callbacks, motif_indices, one permutation "
-        "per shuffle); exhaustive small family: every jds with N<=3 (quick) / N<=4 (thorough), <=2 topologies, column "
-        "sums <=4, sizes in {1,2,3}, ALL permutations; seeded random: N<=12, <=4 topologies, sizes<=5, built-in and "
+        "per shuffle); exhaustive small family, ALL permutations: one topology N<=3 (quick) / N<=4 (thorough), entries "
+        "<=2, column sums <=4; two topologies N<=2 with sums <=3 (quick) / <=4 (thorough) and N<=3 with entries <=1, "
+        "sums <=3; sizes in {1,2,3}; seeded random: N<=12, <=4 topologies, sizes<=5, built-in and "
         "synthetic callbacks, multi-orbit custom motifs; malformed stream (non-divisible sums, missing sizes/builders, "
         "zero size, unequal orbit counts) where model and code must raise the same exception class; a share of the random "
         "cases are HISTORIES: 2-3 generations on the same algorithm object and the same jds list object (contents "
@@ -32,7 +33,7 @@ LEVEL_TEXT = (
     "topology, each on size_k stubs (custom: one partition per orbit), every vertex v occupies exactly jds[v][k] "
     "slots of topology k, no vertex outside 0..N-1 occurs, joint_degrees is carried unchanged, and the factory / "
     "load_gcm_algorithm dispatch equals direct construction. The checker c01_check is proved equivalent to the "
-    "Prop-level specification and is run on the real generators' logged callback calls; the model is tied to "
+    "Prop-level specification and is run on the real generators' logged callback calls (plus the proved-equivalent closedness test: every motif's edges use only its own stubs); the model is tied to "
     "/repo by exact comparison under scripted shuffles (exhaustive small family, all permutations, all three "
     "types, all three construction paths).")
 LEVEL_NOTE = ("Trusted: Coq kernel; extraction + OCaml driver + Python harness for the correspondence; "
@@ -53,8 +54,8 @@ def generate(rng, tier):
                                       code_opts=[G.CYCLE, G.STAR, G.CLIQUE, G.PATH2])
     else:
         yield from G.exhaustive_cases(4, 1, 2, 4, (G.FAST, G.MOTIFS, G.NETWORK), vias=("direct", "main"))
-        yield from G.exhaustive_cases(3, 2, 2, 4, (G.FAST, G.MOTIFS), vias=("factory",), sizes_opts=(1, 2, 3))
-        yield from G.exhaustive_cases(4, 2, 1, 3, (G.FAST, G.MOTIFS, G.NETWORK), vias=("main",), sizes_opts=(1, 2, 3),
+        yield from G.exhaustive_cases(2, 2, 2, 4, (G.FAST, G.MOTIFS), vias=("factory",), sizes_opts=(1, 2, 3))
+        yield from G.exhaustive_cases(3, 2, 1, 3, (G.FAST, G.MOTIFS, G.NETWORK), vias=("main",), sizes_opts=(1, 2, 3),
                                       code_opts=[G.CYCLE, G.STAR, G.CLIQUE, G.PATH2])
     n = 500 if quick else 6000
     for i in range(n):
